@@ -7,16 +7,89 @@ PID = 'C05'
 LEVEL = 'exploration'
 RULE = META[PID]['rule']
 ASSUMPTIONS = META[PID]['assumptions']
-REQUIRED_COUNTERS = META[PID]['required']
+REQUIRED_COUNTERS = META[PID]['required'] + ['equal_events_cases', 'equal_internal_and_external_event_pending']
 
 
 def plan(tier):
     return dict(cases=6000 if tier == "quick" else 60000, shards=16, timeout=600 if tier == 'quick' else 3000)
 
 
+def equal_events_case(acc, rnd, pid='C05'):
+    """Events without any distinguishing payload: an external event that compares equal (same name, same parameters, delay
+    included) to an internal event the chart has sent, both pending at the same time.  They are two events in two queues; a tiny
+    explicit model of the two queues says which one each step consumes."""
+    from ..common import import_sismic
+    import_sismic()
+    from sismic.interpreter import Interpreter
+    from sismic.model import BasicState, CompoundState, Event, InternalEvent, Statechart, Transition
+    sc = Statechart('equal events')
+    sc.add_state(CompoundState('root', initial='a'), None)
+    sc.add_state(BasicState('a'), 'root')
+    d_int = rnd.choice((0, 1, 2, 2))
+    sc.add_transition(Transition('a', None, event='go', action="send('tick', delay=%r)" % d_int if d_int else "send('tick')"))
+    sc.add_transition(Transition('a', None, event='tick', action='n = n + 1'))
+    it = Interpreter(sc, initial_context=dict(n=0))
+    iq, eq = [], []         # model: lists of (due, seq, name) kept in (due, seq) order
+    seq = [0]
+    now = 0
+    hist = []
+    it.execute_once()
+
+    def put(q, due, name):
+        seq[0] += 1
+        q.append((due, seq[0], name))
+        q.sort()
+    for i in range(rnd.randint(6, 16)):
+        r = rnd.random()
+        if r < 0.3:
+            it.queue('go')
+            put(eq, now, 'go')
+            hist.append(('queue go', now))
+        elif r < 0.6:
+            d = rnd.choice((d_int, d_int, 0, 1, 2))
+            form = rnd.random()
+            if d and form < 0.5:
+                it.queue('tick', delay=d)
+            elif d:
+                it.queue(Event('tick', delay=d))
+            else:
+                it.queue('tick')
+            put(eq, now + d, 'tick')
+            hist.append(('queue tick delay=%r' % d, now))
+        if rnd.random() < 0.5:
+            dt = rnd.choice((1, 1, 2))
+            it.clock.time += dt
+            hist.append(('clock+=%r' % dt,))
+        now_step = it.clock.time
+        try:
+            step = it.execute_once()
+        except Exception as e:      # noqa
+            acc.violation(pid + ':unexpected-exception', 'execute_once raised %s: %s' % (type(e).__name__, str(e)[:200]), dict(history=hist))
+            return
+        now = now_step
+        want = None
+        if iq and iq[0][0] <= now:
+            want = ('InternalEvent',) + iq.pop(0)[2:]
+        elif eq and eq[0][0] <= now:
+            want = ('Event',) + eq.pop(0)[2:]
+        got = None if step is None or step.event is None else (type(step.event).__name__, step.event.name)
+        hist.append(('execute_once', now, got))
+        if got != want:
+            acc.violation(pid + ':consumed-event-differs', 'at time %r the step consumed %r; pending internal %r, external %r: expected %r'
+                          % (now, got, [(x[0], x[2]) for x in iq], [(x[0], x[2]) for x in eq], want), dict(history=hist, internal_delay=d_int))
+            return
+        if want == ('Event', 'go'):
+            put(iq, now + d_int, 'tick')
+        if iq and eq and any(a[0] == b[0] and a[2] == b[2] for a in iq for b in eq):
+            acc.count('equal_internal_and_external_event_pending')
+    acc.count('equal_events_cases')
+
+
 def run_case(acc, rnd, tier, case):
     if case % 12 == 11:
         return threaded.queue_vs_execute(acc, rnd, PID)
+    if case % 12 == 5:
+        return equal_events_case(acc, rnd)
     modes = META[PID]['modes']
     mode, _, kw = rnd.choices(modes, weights=[m[1] for m in modes])[0]
     acc.count('mode_' + mode)
